@@ -125,7 +125,12 @@ where
 {
     input
         .into_iter()
-        .filter_map(|t| LanguageIdentifier::try_from_bytes(t.as_ref()).ok())
+        // an `Accept-Language` list is usually written with a space after each comma ("fr-CH, fr;q=0.9"):
+        // the entries reach this function with that space still in front of them
+        .filter_map(|t| {
+            let tag = std::str::from_utf8(t.as_ref()).ok()?.trim();
+            LanguageIdentifier::try_from_bytes(tag.as_bytes()).ok()
+        })
         .collect()
 }
 
